@@ -970,6 +970,11 @@ func (e *Env) trCall(x *Call) Val {
 		v, _ := argS(2)
 		t2 := ta
 		return Val{S: "(store " + a + " " + i + " " + v + ")", Ty: &t2}
+	case "ptr":
+		// ptr(Type, e): the reference e viewed as a *Type (e.g. the payload of an interface value of that dynamic type)
+		t := vc.typeArg(x.Args[0])
+		s, _ := argS(1)
+		return Val{T: types.NewPointer(t), S: s}
 	case "fconst":
 		// fconst(like, v): the constant map / set of the same type as `like`
 		_, ta := argS(0)
